@@ -349,6 +349,14 @@ fn circles(rng: &mut Rng) {
             v.require(sine <= 1e-5, "three_points.rejects_non_collinear", || format!("sine of the angle between the legs {sine:e}"));
         }
     }
+    // a triple with a repeated point has no circle: rejected, never a circle with non-finite centre or radius
+    for (a, b, cc, what) in [(pts[0], pts[0], pts[n / 2], "(p, p, q)"), (pts[n / 2], pts[0], pts[0], "(q, p, p)"), (pts[0], pts[n / 2], pts[0], "(p, q, p)"), (pts[0], pts[0], pts[0], "(p, p, p)")] {
+        match guarded(|| Circle2::from_3_points(a, b, cc)) {
+            Err(e) => v.require(false, "three_points.panics", || format!("{what}: {e}")),
+            Ok(Ok(k)) => v.require(false, "three_points.rejects_a_triple_with_a_repeated_point", || format!("{what}: accepted, centre {:?} r {}", k.center, k.r())),
+            Ok(Err(_)) => {}
+        }
+    }
     let col = Circle2::from_3_points(Point2::new(0.0, 0.0), Point2::new(1.0, 1.0), Point2::new(2.5, 2.5));
     v.require(col.is_err(), "three_points.rejects_collinear", || "".into());
     // RANSAC on contaminated data: inliers exactly on the generating circle
